@@ -2,11 +2,15 @@
    Proved for EVERY token list (what precedes may be intact, damaged or unreadable): one turn of the
    journal loop never consumes past an entry boundary (a line break followed by a token that is
    neither an indent nor another line break), and the loop gets to stand exactly on the first token
-   after every boundary -- so the parse of the following entries is the loop started there.  That the
-   following entries then come out the same (up to the line shift) and that no error lands outside
-   the damaged lines is decided per run on (J, damaged J) pairs against the real parser. *)
+   after every boundary -- so the parse of the following entries is the loop started there; and what
+   the loop builds from there on (the trees AND the diagnostics it adds) does not depend on the
+   diagnostics recorded or the entries recognised before: it is what a fresh run on the remaining
+   tokens builds (C07_rest_of_file_is_independent).  That the remaining tokens of the damaged text are
+   those of the intact text up to the line shift (the lexer carries no state across a line break) and
+   that no error lands outside the damaged lines is decided per run on (J, damaged J) pairs against
+   the real parser. *)
 From HL Require Import Lib.Bytes Model.Ast Model.Lexer Model.Parser Proofs.C07Proofs Proofs.LexerProofs Proofs.ParserProofs
-  Proofs.ParserContainment.
+  Proofs.ParserContainment Proofs.ParserFrame.
 
 (* containment of consumption, one turn: K = every line break consumed, except possibly as the last
    token, is followed by an indent or another line break *)
@@ -61,3 +65,29 @@ Print Assumptions C07_recovery_drops_a_prefix.
 Theorem C07_lexer_progress : forall s : lx, rest s <> [] -> (length (rest (snd (next s))) < length (rest s))%nat.
 Proof. exact next_progress. Qed.
 Print Assumptions C07_lexer_progress.
+
+(* the parser's understanding of the rest of the file is a function of the remaining tokens and the
+   default year alone: started on tokens toks0 with ANY diagnostics errs0 already recorded and ANY
+   journal j0 already built, the loop returns j0 extended by exactly what a fresh run on toks0 builds,
+   and its diagnostics are the fresh run's followed by errs0 (the list is kept newest first) *)
+Theorem C07_rest_of_file_is_independent : forall fuel toks0 errs0 year j0,
+  parse_journal fuel (mkPS toks0 errs0 year) j0 =
+  match parse_journal fuel (mkPS toks0 [] year) jempty with
+  | Some (j', p) => Some (japp j0 j', mkPS (toks p) (perrs p ++ errs0) (dyear p))
+  | None => None
+  end.
+Proof. exact rest_of_file_is_independent. Qed.
+Print Assumptions C07_rest_of_file_is_independent.
+
+(* every parsing function commutes with older diagnostics; the entry parsers in particular *)
+Theorem C07_transaction_independent_of_earlier_errors : forall fuel e ps,
+  parse_transaction fuel (rebase e ps) =
+  match parse_transaction fuel ps with Some (r, p) => Some (r, rebase e p) | None => None end.
+Proof. exact parse_transaction_c. Qed.
+Print Assumptions C07_transaction_independent_of_earlier_errors.
+
+Theorem C07_directive_independent_of_earlier_errors : forall fuel e ps,
+  parse_directive fuel (rebase e ps) =
+  match parse_directive fuel ps with Some (r, p) => Some (r, rebase e p) | None => None end.
+Proof. exact parse_directive_c. Qed.
+Print Assumptions C07_directive_independent_of_earlier_errors.
